@@ -249,6 +249,31 @@ def correspond_sort(ctx, out, n_cases):
     ctx.cov.add_cases("AutoCSR.get_csrs(sort=True)", 20, 20)
 
 
+def _real_fields(c):
+    """Build a real CSRStorage from field declarations `(size, offset|None, reset, pulse)`; returns the canonical
+    answer and, if the *property* is violated (declared offsets not kept / overlap / packed wrongly / a clean list
+    rejected), a message."""
+    from litex.soc.interconnect import csr
+    fields = [csr.CSRField("f%d" % k, size=s, offset=o, reset=r, pulse=p) for k, (s, o, r, p) in enumerate(c)]
+    try:
+        st = csr.CSRStorage(fields=fields, name="x")
+    except ValueError:
+        end = 0
+        for (s, o, r, p) in c:
+            if o is not None and o < end:
+                return "rejected", None
+            end = (end if o is None else o) + s
+        return "rejected", "non-overlapping field list rejected"
+    offs = [f.offset for f in fields]
+    real = "ok %d %d %s" % (st.size, st.storage.reset.value, " ".join(map(str, offs)))
+    end = 0
+    for (s, o, r, p), fo in zip(c, offs):
+        if (o is not None and fo != o) or fo < end or (o is None and fo != end):
+            return real, "field offsets %r do not match declaration %r" % (offs, c)
+        end = fo + s
+    return real, None
+
+
 def correspond_fields(ctx, out, n_cases):
     from litex.soc.interconnect import csr
     rng = ctx.rng
@@ -273,32 +298,11 @@ def correspond_fields(ctx, out, n_cases):
     ans = ctx.lean.call_batch(lines)
     nontriv = 0
     for c, a in zip(cases, ans):
-        fields = [csr.CSRField("f%d" % k, size=s, offset=o, reset=r, pulse=p) for k, (s, o, r, p) in enumerate(c)]
-        try:
-            st = csr.CSRStorage(fields=fields, name="x")
-            offs = [f.offset for f in fields]
-            real = "ok %d %d %s" % (st.size, st.storage.reset.value, " ".join(map(str, offs)))
-            # property: declared offsets are kept, fields do not overlap, automatic ones are packed
-            end = 0
-            for (s, o, r, p), fo in zip(c, offs):
-                if (o is not None and fo != o) or fo < end or (o is None and fo != end):
-                    out.append({"kind": "monitor:field offsets %r do not match declaration %r" % (offs, c),
-                                "instance": "CSRFieldAggregate", "fields": c})
-                    break
-                end = fo + s
+        real, msg = _real_fields(c)
+        if msg:
+            out.append({"kind": "monitor:" + msg, "instance": "CSRFieldAggregate", "fields": c})
+        if real != "rejected":
             nontriv += 1
-        except ValueError:
-            real = "rejected"
-            # property: rejected only when a declared offset lies below the end of the previous field
-            end, bad = 0, False
-            for (s, o, r, p) in c:
-                if o is not None and o < end:
-                    bad = True
-                    break
-                end = (end if o is None else o) + s
-            if not bad:
-                out.append({"kind": "monitor:non-overlapping field list rejected", "instance": "CSRFieldAggregate",
-                            "fields": c})
         ctx.cov.count("fields:" + real.split()[0])
         if a.strip() != real.strip():
             out.append({"kind": "correspondence", "instance": "CSRFieldAggregate", "fields": c, "real": real, "model": a})
@@ -444,6 +448,14 @@ def replay(ctx, payload):
         real = _real_sort(inp["fixed"])
         msg = _sort_oracle(inp["fixed"], real[1]) if real[0] == "ok" else None
         print("fixed=%r -> %r" % (inp["fixed"], real))
+        if msg:
+            print(msg)
+            print("VIOLATION property=%s replay=(replayed)" % ctx.prop)
+            return 1
+        return 0
+    if fi.get("instance") == "CSRFieldAggregate":
+        real, msg = _real_fields([tuple(f) for f in inp["fields"]])
+        print("fields=%r -> %s" % (inp["fields"], real))
         if msg:
             print(msg)
             print("VIOLATION property=%s replay=(replayed)" % ctx.prop)
